@@ -17,6 +17,7 @@ type Cell struct {
 	id   int
 	name string
 	sort string
+	ro   bool // read-only view of (part of) a value: a store through it would have to reach the original
 }
 
 type PathElem struct {
@@ -63,6 +64,12 @@ type RangeVal struct {
 
 // MapRef is a Go map created in the function under verification: a reference to a cell holding the map's current value.
 type MapRef struct {
+	cell *Cell
+}
+
+// SliceRef is a non-byte slice created by make in the function under verification: a reference to a cell holding the
+// slice's current value, so that element stores (s[i] = v) are modelled. Copies of the reference share the cell.
+type SliceRef struct {
 	cell *Cell
 }
 
@@ -131,6 +138,7 @@ type Exec struct {
 	usedContracts map[string]bool
 	inlined     map[string]bool
 	ncall       map[string]int
+	sliceCells  map[*Cell]bool // cells behind SliceRef values
 	entry       *St
 	theories    map[string]bool
 }
@@ -231,6 +239,18 @@ func (fr *Frame) run(reach Term, st *St) []retRec {
 	if len(fn.Blocks) == 0 {
 		ex.unsup(fn.Pos(), "function %s has no body", fn.String())
 		return nil
+	}
+	if bad, where := aliasCheck(fn); len(bad) > 0 {
+		for i, a := range bad {
+			nm := a.Comment
+			if nm == "" {
+				nm = a.Name()
+			}
+			ex.unsup(where[i].Pos(), "the address of variable %s of %s is retained in a slice, struct or map and the variable is assigned again afterwards (retained pointers alias; aggregates have value semantics here)", nm, fn.Name())
+		}
+	}
+	if a, b := aliasingPointerParams(fn); a != nil {
+		ex.unsup(fn.Pos(), "pointer parameters %s and %s of %s have the same type and one of them is written through: they may alias (distinct cells are assumed)", a.Name(), b.Name(), fn.Name())
 	}
 	order, back := blockOrder(fn)
 	fr.loops = map[*ssa.BasicBlock]*loopCtx{}
@@ -458,6 +478,9 @@ func sameVal(a, b Val) bool {
 	case *BytesRef:
 		y, ok := b.(*BytesRef)
 		return ok && x.cell == y.cell && x.off.S == y.off.S && x.len.S == y.len.S
+	case *SliceRef:
+		y, ok := b.(*SliceRef)
+		return ok && x.cell == y.cell
 	case *Boxed:
 		y, ok := b.(*Boxed)
 		return ok && sameVal(x.val, y.val)
@@ -712,6 +735,12 @@ func (fr *Frame) enterLoop(h *ssa.BasicBlock, st *St, reach Term, phiVals map[*s
 	// (a loop invariant must say what it needs about a map)
 	for c, v := range nst.cells {
 		if tv, ok := v.(Term); ok && strings.HasPrefix(tv.Sort, "Map_") {
+			nst.cells[c] = ex.fresh("h_"+c.name, tv.Sort)
+		}
+	}
+	// slices made by the code (SliceRef cells): likewise forgotten at every loop head
+	for c, v := range nst.cells {
+		if tv, ok := v.(Term); ok && ex.sliceCells[c] {
 			nst.cells[c] = ex.fresh("h_"+c.name, tv.Sort)
 		}
 	}
@@ -975,11 +1004,15 @@ func (fr *Frame) bindName(env *Env, k string, v Val, st *St) {
 			switch cv := st.cells[x.cell].(type) {
 			case Term:
 				env.Vars[k] = cv
-			case *MapRef, *IterVal, *BytesRef:
+			case *MapRef, *IterVal, *BytesRef, *SliceRef:
 				fr.bindName(env, k, cv, st)
 			}
 		}
 	case *MapRef:
+		if cv, ok := st.cells[x.cell].(Term); ok {
+			env.Vars[k] = cv
+		}
+	case *SliceRef:
 		if cv, ok := st.cells[x.cell].(Term); ok {
 			env.Vars[k] = cv
 		}
